@@ -265,6 +265,7 @@ pub struct Package<'a> {
 
 impl Aml for Package<'_> {
     fn to_aml_bytes(&self, sink: &mut dyn AmlSink) {
+        assert!(self.children.len() <= u8::MAX as usize);
         let mut bytes = vec![self.children.len() as u8];
         for child in &self.children {
             child.to_aml_bytes(&mut bytes);
@@ -293,6 +294,7 @@ pub struct PackageBuilder {
 
 impl Aml for PackageBuilder {
     fn to_aml_bytes(&self, sink: &mut dyn AmlSink) {
+        assert!(self.elements <= u8::MAX as usize);
         let pkg_length = create_pkg_length(self.data.len() + 1, true);
 
         sink.byte(PACKAGEOP);
